@@ -90,6 +90,36 @@ def pressure(rng, neutral=True) -> bytes:
                 else O('POP0'))
 
 
+def callchain(rng) -> bytes:
+    """k functions, each calling the next from inside a clause of a random
+    construct (stack-neutral): the nesting depth of calls crosses small
+    call-stack limits wherever the call sits"""
+    k = rng.randrange(1, 5)
+    body = O('TRUE') + O('POP0')
+    out = b''
+    for i in range(k):
+        h = 10 + i
+        out += isa.DEF(h, body)
+        call = isa.CALL(h)
+        w = rng.choice(('none', 'if', 'then', 'else', 'try', 'except', 'loop',
+                        'else', 'then'))
+        if w == 'if':
+            call = O('TRUE') + isa.IF(call)
+        elif w == 'then':
+            call = O('TRUE') + isa.IF_ELSE(call, O('FALSE') + O('VERIFY'))
+        elif w == 'else':
+            call = O('FALSE') + isa.IF_ELSE(O('FALSE') + O('VERIFY'), call)
+        elif w == 'try':
+            call = isa.TRY(call, O('FALSE') + O('VERIFY'))
+        elif w == 'except':
+            call = isa.TRY(O('FALSE') + O('VERIFY'), call)
+        elif w == 'loop':
+            call = O('TRUE') + isa.LOOP(O('POP0') + call + O('FALSE')) \
+                + O('POP0')
+        body = call
+    return out + body
+
+
 def witness(rng, lock_info) -> bytes:
     """adversarial witness; lock_info: dict with the handles / keys / items
     the lock consumes."""
@@ -152,9 +182,12 @@ def lock(rng):
     pre = []
     for _ in range(rng.randrange(0, 3)):
         k = rng.choice(('if', 'ifelse', 'try', 'tryerr', 'call', 'loop',
-                        'eval', 'nestedif', 'pressure'))
+                        'eval', 'nestedif', 'pressure', 'callchain',
+                        'callchain'))
         if k == 'pressure':
             pre.append(pressure(rng))
+        elif k == 'callchain':
+            pre.append(callchain(rng))
         elif k == 'if':
             pre.append(O('TRUE') + isa.IF(b''))
         elif k == 'ifelse':
